@@ -142,6 +142,18 @@ impl Precedence {
     }
 }
 
+/// True if the printed form of the expression begins with a unary `+` or `-`.
+pub(crate) fn starts_with_sign(expr: &Expr) -> bool {
+    match *expr {
+        Expr::UnaryOp(ref unaryop) => match unaryop.op {
+            UnaryOpType::Positive | UnaryOpType::Negative => true,
+            UnaryOpType::Degree(_) => false,
+        },
+        Expr::BinOp(ref binop) => binop.op == BinOpType::Pow && starts_with_sign(&binop.left),
+        _ => false,
+    }
+}
+
 impl fmt::Display for Expr {
     fn fmt(&self, fmt: &mut fmt::Formatter<'_>) -> fmt::Result {
         fn recurse(expr: &Expr, fmt: &mut fmt::Formatter<'_>, prec: Precedence) -> fmt::Result {
@@ -205,7 +217,15 @@ impl fmt::Display for Expr {
                     }
                     for expr in exprs.iter().skip(1) {
                         write!(fmt, " ")?;
-                        recurse(expr, fmt, Precedence::Pow)?;
+                        // A later factor that starts with a sign would read
+                        // as addition or subtraction.
+                        if starts_with_sign(expr) {
+                            write!(fmt, "(")?;
+                            recurse(expr, fmt, Precedence::Equals)?;
+                            write!(fmt, ")")?;
+                        } else {
+                            recurse(expr, fmt, Precedence::Pow)?;
+                        }
                     }
                     if prec < Precedence::Mul {
                         write!(fmt, ")")?;
